@@ -142,6 +142,8 @@ GEN_GROUPS = {   # group -> (groups it builds on, proof files, theorems whose `P
                 "gen_TCP_from_packet_eq", "gen_TCP_from_packet_none", "fields_tcp_unframed", "fields_tcp_flags", "gen_sig_from_packet_eq", "gen_extract_eq", "gen_extract_sig_eq",
                 "gen_extract_ok", "C03_translated_fields4", "C03_translated_fields6", "C03_translated_tcp", "C03_translated_packet4", "C03_translated_packet6", "C03_translated_sig_of",
                 "C03_translated_trailer_ignored", "C03_translated_parse_packet", "C03_translated_should_fingerprint"]),
+    "api": (["layers", "select", "mtu", "http"], ["GenApiC.v"],
+            ["gen_api_fp_tcp_eq", "gen_api_fp_mtu_eq", "gen_api_fp_http_eq", "gen_exec_eq", "gen_run_ops_eq", "C16_translated_history", "C16_translated_repeat"]),
     "http": ([], ["GenP_http.v", "GenHdrP.v"], ["gen_find_http_match_eq", "gen_software_eq", "gen_dishonest_eq", "gen_headers_match_eq", "gen_http_signatures_match_eq", "gen_rec_matches_eq", "gen_fingerprint_http_eq"]),
 }
 FORCE_TIE = [False]     # thorough tier: recompile every tie (no cache), so that coqchk sees the .vo files of this very translation
@@ -149,7 +151,7 @@ GEN_PRELIB = {"layers": ["GenLayLib.v"]}      # hand-written libraries a group's
 GEN_EXTRA_TRANSLATOR = {"layers": "lay2coq.py"}   # groups written by a translator of their own (built on py2coq as a library)
 GEN_MODEL_FILES = ["Model/Prelude.v", "Model/Bits.v", "Model/Sig.v", "Model/Matcher.v", "Model/Select.v", "Model/Uptime.v", "Model/Mtu.v", "Model/Options.v", "Model/Text.v",
                    "Model/SigParse.v", "Model/DbParse.v", "Model/HttpRead.v", "Model/HttpMatch.v", "Proofs/BitsP.v", "Proofs/OptionsP.v", "Proofs/MtuP.v", "Proofs/UptimeP.v", "Model/Wire.v", "Spec/C03.v", "Proofs/WireP.v",
-                   "Proofs/ExtractP.v", "Proofs/TrimP.v", "Properties/C03.v", "Gen/GenLib.v"]
+                   "Proofs/ExtractP.v", "Proofs/TrimP.v", "Properties/C03.v", "Model/Api.v", "Model/DbState.v", "Proofs/ApiP.v", "Gen/GenLib.v"]
 
 
 def gen_tie(groups=None):
@@ -158,10 +160,14 @@ def gen_tie(groups=None):
     text itself plus the proof and model files; failures are recomputed on every run."""
     groups = list(groups or GEN_GROUPS)
     order = []
+
+    def visit(g):
+        for d in GEN_GROUPS[g][0]:
+            visit(d)
+        if g not in order:
+            order.append(g)
     for g in groups:
-        for d in GEN_GROUPS[g][0] + [g]:
-            if d not in order:
-                order.append(d)
+        visit(g)
     WORK.mkdir(exist_ok=True)
     (WORK / "gen_tie_cache").mkdir(exist_ok=True)
     lock = open(WORK / "gen_tie.lock", "w")
@@ -192,8 +198,16 @@ def gen_tie(groups=None):
             elif any(not done[d]["ok"] for d in deps):
                 r["detail"] = "group %s builds on group %s, whose equivalence no longer checks" % (g, [d for d in deps if not done[d]["ok"]][0])
             else:
+                closure = []
+
+                def close(x):
+                    for y in GEN_GROUPS[x][0]:
+                        close(y)
+                        if y not in closure:
+                            closure.append(y)
+                close(g)
                 h = hashlib.sha1(model_hash.digest())
-                for d in deps + [g]:
+                for d in closure + [g]:
                     h.update((COQ / "Gen" / ("Generated_%s.v" % d)).read_bytes())
                     for pf in GEN_GROUPS[d][1]:
                         h.update((COQ / "Gen" / pf).read_bytes())
@@ -203,7 +217,8 @@ def gen_tie(groups=None):
                 else:
                     cmds = ["timeout 300 coqc -Q . PV Gen/GenLib.v"] if not (COQ / "Gen" / "GenLib.vo").exists() or \
                         (COQ / "Gen" / "GenLib.vo").stat().st_mtime < (COQ / "Gen" / "GenLib.v").stat().st_mtime else []
-                    for d in deps:      # the groups it builds on must be compiled from THIS translation
+                    for d in closure:      # everything it builds on (transitively) must be compiled from THIS translation
+                        cmds += ["timeout 600 coqc -Q . PV Gen/%s" % x for x in GEN_PRELIB.get(d, [])]
                         cmds.append("timeout 600 coqc -Q . PV Gen/Generated_%s.v" % d)
                         cmds += ["timeout 900 coqc -Q . PV Gen/%s" % pf for pf in GEN_GROUPS[d][1]]
                     cmds += ["timeout 600 coqc -Q . PV Gen/%s" % x for x in GEN_PRELIB.get(g, [])]
